@@ -21,23 +21,23 @@ def build(jobs: int = 16, timeout: int = 1500) -> tuple[bool, str]:
     """Incremental full .vo build (no -vos), serialised between concurrently running checks."""
     with open(LOCK, "w") as lk:
         fcntl.flock(lk, fcntl.LOCK_EX)
-        # the translated part of the model is regenerated from /repo's current source on every run
-        try:
-            from . import translate
-            from .common import REPO
-            text = translate.translate(str(REPO))
-        except Exception as ex:  # noqa: BLE001
-            return False, f"translator (harness/translate.py) cannot translate the current source: {type(ex).__name__}: {ex}"
-        gen = COQ / "GenSched.v"
-        if not gen.exists() or gen.read_text() != text:
-            gen.write_text(text)
-        try:
-            ladder = translate.translate_ladder(str(REPO))
-        except Exception as ex:  # noqa: BLE001
-            return False, f"translator (harness/translate.py) cannot translate report_to_broker: {type(ex).__name__}: {ex}"
-        genl = COQ / "GenLadder.v"
-        if not genl.exists() or genl.read_text() != ladder:
-            genl.write_text(ladder)
+        # the translated parts of the model are regenerated from /repo's current source on every run.  A source the translator
+        # cannot translate leaves a file that does not compile: the properties whose theorems depend on it (and only those) are
+        # no longer shown - everything else is still built (make -k) and judged on its own
+        from . import translate
+        from .common import REPO
+        notes = []
+        for fname, fn in (("GenSched.v", translate.translate), ("GenLadder.v", translate.translate_ladder),
+                          ("GenHandle.v", translate.translate_handle)):
+            try:
+                text = fn(str(REPO))
+            except Exception as ex:  # noqa: BLE001
+                msg = f"translator (harness/translate.py) cannot translate the current source for {fname}: {type(ex).__name__}: {ex}"
+                notes.append(msg)
+                text = "(* " + msg.replace("*)", "* )") + " *)\nDefinition the_translator_failed : False := I.\n"
+            gen = COQ / fname
+            if not gen.exists() or gen.read_text() != text:
+                gen.write_text(text)
         mk = COQ / "Makefile"
         if mk.exists() and mk.stat().st_mtime < (COQ / "_CoqProject").stat().st_mtime:
             mk.unlink()
@@ -45,8 +45,13 @@ def build(jobs: int = 16, timeout: int = 1500) -> tuple[bool, str]:
             rc, out = _run(["coq_makefile", "-f", "_CoqProject", "-o", "Makefile"], COQ, 120)
             if rc != 0:
                 return False, out
-        rc, out = _run(["make", f"-j{jobs}"], COQ, timeout)
-        return rc == 0, out
+        rc, out = _run(["make", "-k", f"-j{jobs}"], COQ, timeout)
+        if rc != 0:
+            # no stale object of a file that failed to build may be loaded by what depends on it
+            for name in set(re.findall(r"\*\*\* \[[^\]]*?:\s*([\w/]+)\.vo\]", out)) | set(re.findall(r'File "\./([\w/]+)\.v"', out)):
+                for ext in (".vo", ".vos", ".vok", ".glob"):
+                    (COQ / f"{name}{ext}").unlink(missing_ok=True)
+        return rc == 0, "\n".join(notes) + ("\n" if notes else "") + out
 
 
 def theorems_in(path: Path) -> list[str]:
@@ -96,11 +101,9 @@ def _check_one(pid: str, src: Path, ok: bool, out: str) -> dict:
     names = theorems_in(src)
     info["theorems"] = names
     if not ok:
-        info["errors"] = out[-4000:]
-        # which file broke?
+        # something in the development does not build: this property is affected only if ITS statements no longer compile
         m = re.findall(r'File "\./([^"]+)", line (\d+)', out)
-        info["broken_at"] = [f"{a}:{b}" for a, b in m][:5]
-        return info
+        info["build_failures_elsewhere"] = [f"{a}:{b}" for a, b in m][:5] + [l for l in out.splitlines() if l.startswith("translator")][:3]
     import os
     import shutil
     scratch = COQ / "_cases" / f"props_{src.stem}_{os.getpid()}"
@@ -112,6 +115,7 @@ def _check_one(pid: str, src: Path, ok: bool, out: str) -> dict:
         info["build_ok"] = False
         info["errors"] = pout[-4000:]
         return info
+    info["build_ok"] = True          # the statements of this property compile against what the development has built
     # Print Assumptions answers come in the order of the Print commands
     printed = re.findall(r"Print Assumptions\s+([A-Za-z0-9_']+)\s*\.", src.read_text())
     blocks = re.split(r"(?=Closed under the global context|Axioms:)", pout)
